@@ -67,9 +67,12 @@ def Dec.fresh : Dec := { block := [], width := 0, size := 0 }
 inductive UErr | tooShort | badWidth | badUvarint | badLength
   deriving DecidableEq, Repr
 
-/-- `Unmarshal(data)` → (`ok left` | error, decoder). Every field is overwritten first. -/
-def Dec.unmarshal (_d : Dec) (data : List Nat) : Except UErr (List Nat) × Dec :=
-  let d0 : Dec := { block := [], width := 0, size := 0 }
+/-- `Unmarshal(data)` → (`ok left` | error, decoder). The first three statements clear the RECEIVER's
+fields (`d.offsetsBlock = d.offsetsBlock[:0]; d.width = 0; d.size = 0`) before any validation, so every
+error return leaves an empty table whatever the object held (lindb relies on it: `dataScanner` calls
+`Unmarshal(nil)` to empty its decoder, `readSeriesData` ignores the error on a pooled decoder). -/
+def Dec.unmarshal (d : Dec) (data : List Nat) : Except UErr (List Nat) × Dec :=
+  let d0 : Dec := { d with block := d.block.take 0, width := 0, size := 0 }
   if data.length < 2 then (.error .tooShort, d0)
   else
     let width : Int := (data.getD 0 0 : Nat)
@@ -114,5 +117,20 @@ def Dec.getBlock (d : Dec) (index : Int) (dataBlock : List Nat) : Except BErr (L
     if startOffset < 0 ∨ endOffset < 0 ∨ endOffset < startOffset ∨ endOffset > dataBlock.length then
       .error .corruptedRange
     else .ok ((dataBlock.take endOffset.toNat).drop startOffset.toNat)
+
+/-- NOT lindb's code: an `Unmarshal` that validates into locals and assigns the receiver's fields only after
+the last check ("commit on success"), i.e. without the three clearing statements. Used only by
+`Props.C14.Neg.unmarshal_commit_on_success_is_stale` to show what the clearing is needed for. -/
+def Dec.unmarshalCommitOnSuccess (d : Dec) (data : List Nat) : Except UErr (List Nat) × Dec :=
+  match (Dec.fresh.unmarshal data) with
+  | (.ok left, d') => (.ok left, d')
+  | (.error e, _) => (.error e, d)
+
+/-- the error of an `Unmarshal` result, `none` when it was accepted (decidable form for witnesses) -/
+def errOf (r : Except UErr (List Nat)) : Option UErr := match r with | .error e => some e | .ok _ => none
+
+/-- a reuse history of ONE decoder object: every input is given to `Unmarshal`, errors ignored -/
+def Dec.feed (d : Dec) (inputs : List (List Nat)) : Dec :=
+  inputs.foldl (fun d i => (d.unmarshal i).2) d
 
 end LinVerif.FixedOffset
